@@ -9,6 +9,7 @@
 #include "vr.h"
 #include <math.h>
 #include "cimba.h"
+#include "cmi_coroutine.h"
 #include "cmi_hashheap.h"
 
 extern struct cmi_hashheap *cmi_verif_event_queue(void);
@@ -174,6 +175,8 @@ static void act0(void *s, void *o) { action_common(0, s, o); }
 static void act1(void *s, void *o) { action_common(1, s, o); }
 static void act2(void *s, void *o) { action_common(2, s, o); }
 
+static struct cmi_coroutine *opco; static int co_burst;
+static void *co_ops(struct cmi_coroutine *c, void *ctx) { (void)c; (void)ctx; for (int q = 0; q < co_burst && vr_nviol == 0; q++) one_op(); return NULL; }
 void vr_case(uint64_t seed, uint64_t idx, int profile)
 {
     cmb_logger_flags_off(CMB_LOGGER_INFO | CMB_LOGGER_WARNING);
@@ -197,6 +200,10 @@ void vr_case(uint64_t seed, uint64_t idx, int profile)
     check_queries("initialize");
     while (budget > 0 && vr_nviol == 0) {
         int burst = 1 + (int)vr_below(&R, 6);
+        /* one burst in five is made from inside a coroutine (as a simulated process would: with the invalid and divide-by-zero floating
+         * point exceptions unmasked, so that e.g. inf - inf in a comparison of event times ends the program) */
+        if (vr_chance(&R, 1, 5)) { if (!opco) { opco = cmi_coroutine_create(); cmi_coroutine_initialize(opco, co_ops, NULL, NULL, 256 * 1024); } co_burst = burst; (void)cmi_coroutine_start(opco, NULL); budget -= burst; VR_CNT("bursts_made_inside_a_coroutine"); if (inf_ok) VR_CNT("bursts_inside_a_coroutine_with_events_at_infinity_possible"); }
+        else
         for (int q = 0; q < burst && vr_nviol == 0; q++) { one_op(); budget--; }
         int runs = (int)vr_below(&R, 4);
         for (int q = 0; q < runs && vr_nviol == 0; q++) {
